@@ -7,6 +7,7 @@ import (
 	"go/parser"
 	"go/token"
 	"math/rand"
+	"regexp"
 	"strconv"
 	"strings"
 
@@ -89,8 +90,22 @@ func c15CorpusCase(r *mon.Run, ci corpusItem) {
 	if total != n {
 		r.Violate("comment-count", c, "%s: %d comments injected, %d comment tokens in the raw rendering", shortPath(name), n, total)
 	}
-	if ftoks := a2j.CommentTokens(cout); sum(ftoks) != n {
-		r.Violate("comment-count", c, "%s: %d comments injected, %d comment tokens in the formatted rendering", shortPath(name), n, sum(ftoks))
+	// in the formatted output every comment is still there: each marker sits in exactly one comment token
+	// (gofmt itself may add bare "//" separator lines when it re-flows a doc comment, so tokens are not counted)
+	{
+		ftoks := a2j.CommentTokens(cout)
+		seen := map[string]int{}
+		for t, k := range ftoks {
+			for _, m := range markerRe.FindAllString(t, -1) {
+				seen[m] += k
+			}
+		}
+		for i := 1; i <= n; i++ {
+			if seen[fmt.Sprintf("CM%dQ", i)] != 1 {
+				r.Violate("comment-count", c, "%s: comment CM%dQ appears in %d comment tokens of the formatted rendering, want 1", shortPath(name), i, seen[fmt.Sprintf("CM%dQ", i)])
+				break
+			}
+		}
 	}
 	r.Eval("corpus|"+name+fmt.Sprint(ci.Seed), n > 0)
 	r.Count("corpus.files", 1)
@@ -102,6 +117,8 @@ func c15CorpusCase(r *mon.Run, ci corpusItem) {
 		fmt.Printf("%s: %d comments\n--- with comments ---\n%s\n--- without comments ---\n%s\n", name, n, cout, pout)
 	}
 }
+
+var markerRe = regexp.MustCompile(`CM\d+Q`)
 
 func sum(m map[string]int) int {
 	t := 0
@@ -120,9 +137,10 @@ type fileCmtCase struct {
 	Body      int      `json:"body"`
 	NoFormat  bool     `json:"no_format"`
 	Imports   bool     `json:"imports"`
+	Order     []bool   `json:"order"` // call order: true = next HeaderComment, false = next PackageComment
 }
 
-var fileCmtTexts = []string{"plain text", "", " ", "Package p does things.", "multi\nline text", "trailing newline\n", "code: x := y{", "} else {", "\"quotes\" `and` 'more'", "日本語 ünï", "a\n\nparagraph break", "func main() {", "\\ backslash", "tab\there", "x // y", "\nleading newline", "- list item\n- another", "# heading", "Deprecated: no", "\t indented", "100%", "import \"x\""}
+var fileCmtTexts = []string{"plain text", "", " ", "Package p does things.", "multi\nline text", "trailing newline\n", "code: x := y{", "} else {", "\"quotes\" `and` 'more'", "日本語 ünï", "a\n\nparagraph break", "func main() {", "\\ backslash", "tab\there", "x // y", "\nleading newline", "- list item\n- another", "# heading", "Deprecated: no", "\t indented", "100%", "import \"x\"", " /* TODO", "  // a\nb := c"}
 var canonPaths = []string{"", "a.b/c", "example.com/x/y", "weird \"quoted\" path", "日本/パス", "back\\slash", "new\nline", "tab\tpath", "`backquote`", "a.b/c // x", "a.b/c */ x"}
 
 func genFileCmt(rnd *rand.Rand) fileCmtCase {
@@ -135,6 +153,8 @@ func genFileCmt(rnd *rand.Rand) fileCmtCase {
 			return "" // a genuinely empty entry (paragraph break)
 		case strings.HasPrefix(tx, "\n"):
 			return "\n" + marker + " " + tx[1:]
+		case strings.HasPrefix(tx, " ") && strings.Contains(tx, "/"):
+			return tx + " " + marker // white space before a comment marker stays at the start of the text
 		}
 		return marker + " " + tx
 	}
@@ -145,17 +165,38 @@ func genFileCmt(rnd *rand.Rand) fileCmtCase {
 		fc.Packages = append(fc.Packages, pick(i, "PKG"))
 	}
 	fc.Canonical = canonPaths[rnd.Intn(len(canonPaths))]
+	// the calls may come in any interleaving (headers need not be given first)
+	h, p := len(fc.Headers), len(fc.Packages)
+	for h > 0 || p > 0 {
+		if p == 0 || (h > 0 && rnd.Intn(2) == 0) {
+			fc.Order = append(fc.Order, true)
+			h--
+		} else {
+			fc.Order = append(fc.Order, false)
+			p--
+		}
+	}
 	return fc
 }
 
 func (fc fileCmtCase) build() *jen.File {
 	f := jen.NewFile("p")
 	f.NoFormat = fc.NoFormat
-	for _, h := range fc.Headers {
-		f.HeaderComment(h)
+	hi, pi := 0, 0
+	for _, isHeader := range fc.Order {
+		if isHeader {
+			f.HeaderComment(fc.Headers[hi])
+			hi++
+		} else {
+			f.PackageComment(fc.Packages[pi])
+			pi++
+		}
 	}
-	for _, p := range fc.Packages {
-		f.PackageComment(p)
+	for ; hi < len(fc.Headers); hi++ { // cases built by hand (negative controls) carry no order
+		f.HeaderComment(fc.Headers[hi])
+	}
+	for ; pi < len(fc.Packages); pi++ {
+		f.PackageComment(fc.Packages[pi])
 	}
 	f.CanonicalPath = fc.Canonical
 	if fc.Imports {
@@ -284,7 +325,7 @@ func c15FileCase(r *mon.Run, idx int64) {
 		}
 		// the same file without any file-level comment has the same code tokens
 		bare := fc
-		bare.Headers, bare.Packages, bare.Canonical = nil, nil, ""
+		bare.Headers, bare.Packages, bare.Canonical, bare.Order = nil, nil, "", nil
 		if bsrc, f2 := renderFile(bare.build()); f2 == "" {
 			if a, b := strings.Join(a2j.CodeTokens(src), "\n"), strings.Join(a2j.CodeTokens(bsrc), "\n"); a != b {
 				r.Violate("file-comment-alters-tokens", c, "file-level comments change the code-token stream\ncase: %s\noutput:\n%s", desc, src)
